@@ -180,7 +180,7 @@ func runOps(cfg hx.Config, meta *hx.Meta) []string {
 	r := hx.NewRand(cfg.Seed ^ 0xC08)
 	pool := Pool()
 	prefix := "deriveEqual"
-	nseq, replays := 1500, 32
+	nseq, replays := 3000, 32
 	if cfg.Tier == "thorough" {
 		nseq = 20000
 	}
@@ -546,9 +546,9 @@ type variant struct {
 
 func runE2E(cfg hx.Config, meta *hx.Meta) ([]string, error) {
 	r := hx.NewRand(cfg.Seed ^ 0xE2E08)
-	nmod, nruns := 6, 8
+	nmod, nruns := 10, 8
 	if cfg.Tier == "thorough" {
-		nmod, nruns = 30, 64
+		nmod, nruns = 40, 64
 	}
 	var lines []string
 	var mu sync.Mutex
@@ -628,6 +628,20 @@ func runE2E(cfg hx.Config, meta *hx.Meta) ([]string, error) {
 			}
 			g := hx.Goderive(cfg.Goderive, filepath.Join(root, v.dir), v.args...)
 			nrun++
+			if g.TimedOut {
+				// a hang is reported once; the remaining invocations of this module are skipped
+				// (each would cost another 30 s)
+				fs := map[string]string{"go.mod": "module m\n\ngo 1.24\n"}
+				for f, t := range files {
+					fs[f] = t
+				}
+				mu.Lock()
+				meta.AddDirect(hx.Direct{Class: "c08-hang", What: "goderive does not terminate on a package with mutually assignable named types (" + v.name + ")",
+					Files: fs, Cmd: "goderive " + strings.Join(v.args, " "), Output: hx.Truncate(g.Out, 1500)})
+				meta.GoderiveRuns += nrun
+				mu.Unlock()
+				return
+			}
 			// which packages did this variant address?
 			addressed := pkgs
 			if strings.HasPrefix(v.name, "alone ") || strings.HasPrefix(v.name, "inside ") {
